@@ -41,8 +41,13 @@ _FIELD = re.compile(r'^\{([A-Za-z_][A-Za-z0-9_]*)(?::(int))?\}$')
 _CLEAN_REL = re.compile(r'^[a-z0-9_]+(\.[a-z0-9]+)?(/[a-z0-9_]+(\.[a-z0-9]+)?)*$')
 
 
+EMPTY_AS_SUFFIX = '\x00empty-suffix-read-literally'
+
+
 def responder_name(method, suffix=None):
     n = 'on_' + method.lower()
+    if suffix == EMPTY_AS_SUFFIX:
+        return n + '_'
     if suffix:
         n += '_' + suffix
     return n
@@ -215,7 +220,15 @@ class Model:
         fallbacks = self.matching_fallbacks(path)
         if matched:
             alts = []
+            readings = []
             for template, res_idx, suffix, kwargs in matched:
+                readings.append((template, res_idx, suffix, kwargs))
+                if suffix == '' and implemented(self.resources[res_idx], EMPTY_AS_SUFFIX):
+                    # add_route(..., suffix=''): "no suffix" (plain on_get ...) is one reading; taking the docs
+                    # literally (on_get_{suffix} -> 'on_get_') is the other, tenable only if such responders
+                    # exist - a suffix without any responder is refused when the route is added
+                    readings.append((template, res_idx, EMPTY_AS_SUFFIX, kwargs))
+            for template, res_idx, suffix, kwargs in readings:
                 impl = implemented(self.resources[res_idx], suffix)
                 http_impl = sorted(m for m in impl if m not in META)
                 if method in impl:
@@ -228,7 +241,7 @@ class Model:
                 else:
                     alt = {'cls': 'unknown-verb'}
                 alt['template'] = template
-                alt['suffix'] = suffix
+                alt['suffix'] = '' if suffix == EMPTY_AS_SUFFIX else suffix
                 if alt not in alts:
                     alts.append(alt)
             return {'alts': alts, 'masks': bool(fallbacks), 'n_fallbacks': len(fallbacks)}
